@@ -125,6 +125,11 @@ impl Analysis {
         }
     }
 
+    /// Forgets everything about a definition, e.g. because the symbol it belongs to was removed (its index may be reused)
+    pub fn remove_definition(&mut self, ty: &DefinitionType) {
+        self.definitions.remove(ty);
+    }
+
     /// Adds multiple symbol usages, for every part of the path
     /// For example, when adding a usage for 'foo.bar' it will add usages for 'foo' and for 'bar'.
     pub fn add_symbol_usage(
